@@ -361,6 +361,8 @@ func makeField(v reflect.Value, params fieldParameters) (encoder, error) {
 			}
 
 			berType.value = stringEncoder(v.String())
+		default:
+			return nil, fmt.Errorf("ber: cannot marshal a value of kind %s", val.Kind())
 		}
 	}
 	tag.len = int64(berType.value.Len())
